@@ -1,7 +1,7 @@
 """C19 — an interrupted signature-file write never yields a loadable wrong file."""
 import os
 
-from core import nats, natlists, exc_kind
+from core import nats, natlists, exc_kind, safe_check
 import dbutil
 
 PROPS = ('GambitV.Props.C19', 'GambitV.C19')
@@ -144,7 +144,7 @@ def run(ctx):
 	rng = ctx.rng
 
 	def sub(case, tag):
-		lines, pf = check(ctx, case)
+		lines, pf = safe_check(check, ctx, case)
 		nt = case.pop('_nt', False)
 		ctx.submit(case, lines, nontrivial=nt, tags=[tag, f'fast={case["fast"]}', f'payload={case["nsigs"]}x{case["siglen"]}'], pyfails=pf)
 
